@@ -16,6 +16,16 @@ def run(tier, seed):
     deductive(rep, "C01", ["markdown_it.rules_inline.escape.escape", "markdown_it.parser_inline.ParserInline.tokenize", "markdown_it.parser_inline.ParserInline.skipToken"], "contracts.inline",
               select=lambda q, ob, rel: rel or ob.kind in ("SAFE", "DEC", "INV-init", "INV-pres", "PRE", "COVER", "GUARD"))
     deductive(rep, "C01", ["markdown_it.helpers.parse_link_title.parseLinkTitle"], "contracts.helpers", select=lambda q, ob, rel: True)
+    safety = lambda q, ob, rel: rel or ob.kind in ("SAFE", "DEC", "INV-init", "INV-pres", "PRE", "COVER", "GUARD")  # noqa: E731
+    import contracts.delims as DL
+    import contracts.emph as EM
+    import contracts.fragjoin as FJ
+    import contracts.inline2 as I2
+    deductive(rep, "C01", I2.FUNCS, "contracts.inline2", select=safety)
+    deductive(rep, "C01", DL.FUNCS, "contracts.delims", select=safety)
+    deductive(rep, "C01", EM.FUNCS, "contracts.emph", select=safety)
+    deductive(rep, "C01", FJ.FUNCS, "contracts.fragjoin", select=safety)
+    inline_universe(rep, "vf.checks:delim_contracts", tier, "processDelimiters / _postProcess / tokenizers", "preconditions of the delimiter-pipeline contracts hold at every real call (what their safety proofs assume)", quick_k=3, thorough_k=4)
     cfgs = ["commonmark", "js-default", "zero", "cm-heading", "cm+table+strike", "cm-maxnest1", "cm+typo", "cm-code", "cm+defs"]
     lines_universe(rep, "vf.checks:no_exception", tier, "MarkdownIt.parse/render/parseInline/renderInline", "no exception, no hang (2 s per document)",
                    cfgs=cfgs if tier == "quick" else ALL_CFGS, exception_is_failure=True, timeout_is_failure=True, rule="distinct top-level token type sequences")
@@ -31,7 +41,7 @@ def run(tier, seed):
         "Mixed. Deductive: SAFE (no IndexError/ValueError/AssertionError/unbound local at any site) and DEC (every loop terminates) obligations are "
         "discharged for the StateBlock scanning helpers, the seven leaf block rules, ParserBlock.tokenize (progress: the paragraph fallback always matches; rules run only under level < maxNesting on non-empty lines), ParserInline.tokenize/skipToken (position strictly advances; memo invariant cache[p] > p) and the escape rule, under the line-table invariant WF (which the run-time monitors "
         "confirm on every real call). Bounded: a no-exception/no-hang monitor on the four API methods over the wrapped line universe and the inline "
-        "universe x 9-12 configurations. blockquote, list_block and its marker scanners, parseLinkTitle and text_join are verified too. table, reference, the remaining inline rules, delimiter post-processing, smartquotes/replacements internals, "
+        "universe x 9-12 configurations. blockquote, list_block and its marker scanners, parseLinkTitle and text_join are verified too. The delimiter pipeline (scanDelims, the emphasis/strikethrough/newline rules, processDelimiters, both _postProcess rules, fragments_join) is verified for safety - including that no computed index is negative, so nothing wraps around - and termination. table, reference, the remaining inline rules (text, links, images, autolink, entity, html_inline; backticks is verified), smartquotes/replacements internals, "
         "the renderer's Python-level safety and getLines (assumed contract) are covered by the bounded monitor only.")
     rep.trusted_base += STD_TRUST
     rep.assumptions += ["WF (DESIGN 3.2) holds at every rule call: monitored at run time, established deductively only for the leaf rules' callers in progress",
